@@ -51,8 +51,11 @@ def gen_cases(tier, seed):
     for (la, lo, al), (sp, co, cl), att, weave, typ, hz in itertools.product(
             sites, cruises, kin.ATTITUDES, (False, True), ('rate', 'increment'), horizons):
         lo2 = lo if abs(lo) > 179 else lo + lon_shift
+        # every second lattice point runs on a dyadic ladder (1/32 ... 1/512 s: intervals that are not a whole
+        # number of microseconds or milliseconds), the others on the decimal one
+        ldr = [2.0 ** -k for k in range(5, 5 + len(ladder))] if len(cases) % 2 else ladder
         cases.append(dict(lat=la, lon=lo2, alt=al, speed=sp, course=co, climb=cl, attitude=att,
-                          weave=weave, type=typ, ladder=ladder, T=hz, phase=phase))
+                          weave=weave, type=typ, ladder=ldr, T=hz, phase=phase))
     if tier == 'thorough':
         # the 2 ms / 1 ms pair and the long horizons on a sub-lattice
         sub_sites = [(-85.0, -179.5, 3000.0), (-33.0, 151.0, 20000.0), (0.0, 10.0, -500.0),
